@@ -55,6 +55,8 @@ def run(ctx):
     # the grid's version reaches every nested writer (a 2.0 grid is never written with 3.0 spellings)
     _zinc.version_threading(ctx, 'C01.D2', 'zincdumper')
     _zinc.header_version(ctx, 'C01.D5', 'zincdumper')
+    from . import c16
+    c16.mapping_overrides(ctx, ctx.model, rule='C01.D6')
     from . import c17
     c17._api(ctx, ctx.model, rule='C01.D7', only=('zincparser', 'zincdumper'))
     c17._timezone_name(ctx, ctx.model, rule='C01.D7')
@@ -182,6 +184,13 @@ def _document(ctx):
         ctx.error('C01.D5', 'dump(): %s' % e)
         return
     forms = r['zinc_multi']
+    if r.get('truthiness_filter') is not None:
+        tf = r['truthiness_filter']
+        ctx.violation('C01.D5', '%s::dump' % FD, norm(tf),
+                      'dump([g1, Grid(columns=["a"]), g3]) (the middle grid has columns but no rows): a Grid is a sequence, so a '
+                      'grid without rows is falsy and `%s` drops it -- 3 grids are dumped, 2 come back' % norm(tf.value)[:50],
+                      'the list of grids is filtered by truthiness before dumping; an empty grid is a valid grid', file=FD,
+                      line=tf.lineno, engine='E6')
     if forms == {'ZJOIN'} and not [c for c in r['extra'].get(('zinc_multi', 'ZJOIN'), []) if 'len(' in c[0]]:
         ctx.ob('C01.D5', 'several grids are joined with one newline (each grid ends with a newline: a blank line); '
                          '%d returning paths of dump()' % r['n_paths'], True, '%s:%d' % (FD, fn.lineno))
